@@ -11,5 +11,6 @@ def run(ck):
     ck.out_of_scope += ['everything that needs time or several processes: detection of a dead connection by quinn (idle timeout / keep-alive), bounded number of attempts, other connector kinds (they dial per request), tunnels open across the outage (their clean failure is C04 / C16)',
                         'which failures carry a "quic:" context: an upstream that dies silently surfaces first as a stream error without it']
     quiccache.spec_get_connection(ck)
+    quiccache.spec_redial_history(ck)
     quiccache.spec_connect_forgets_dead_connection(ck)
     ck.post_filter = lambda o: o.label.startswith('C19/') or o.status in ('undecided', 'vacuous', 'inconclusive')
